@@ -43,6 +43,7 @@ def run(ctx):
     from .. import rules_tree as RT2
     ctx.rule('R12.5', 'grouping is total: no size/depth cut-off in the drivers and passes this property relies on', floor=1)
     RT2.check_no_cutoff(ctx, 'R12.5', only={'_group', 'group_period', 'group_as', 'group_aliased', 'group_identifier'})
+    RT2.check_recursion_coverage(ctx, 'R12.5', only={'group_period', 'group_as', 'group_aliased', 'group_identifier', 'group_order', 'group_typecasts', 'group_arrays'})
 
 
 def check_remove_quotes(ctx):
